@@ -111,7 +111,8 @@ def run_hist(case):
     reset()
     m = mx.new_model("M")
     steps = []
-    for op in case["ops"]:
+    watch = case.get("observe")      # optional list of booleans: look at the model after op i?
+    for i, op in enumerate(case["ops"]):
         exc = None
         try:
             do_op(m, op)
@@ -119,6 +120,9 @@ def run_hist(case):
         except BaseException as e:
             code = classify(op[0], e)
             exc = "%s: %s" % (type(e).__name__, str(e)[:200])
+        if watch is not None and not watch[i]:
+            steps.append({"out": code, "exc": exc, "spaces": None, "skipped": True})
+            continue
         try:
             snap = observe(m)
         except BaseException as e:
